@@ -167,7 +167,7 @@ def gen_net(rng, idx, profile):
     x = b.input([1, h, w, c])
     b.net.desc.append(f"profile={profile} dtype={dtype} in={[1, h, w, c]}")
     menu = {
-        "conv": ["conv", "conv", "conv1x1", "dwconv", "maxpool", "avgpool_valid", "relu", "fc_end", "tconv"],
+        "conv": ["conv", "conv", "conv1x1", "dwconv", "maxpool", "avgpool_valid", "relu", "fc_end", "tconv", "fc_batch"],
         "elementwise": ["add_self", "add_skip", "mul_const", "sub_const", "add_const", "minmax", "relu", "lrelu", "quantize",
                         "conv1x1", "mul_skip", "hswish", "add_const"],
         "memory": ["concat", "split_concat", "slice", "pad_conv", "reshape_back", "conv1x1", "relu", "maxpool", "pad", "squeeze_expand",
@@ -251,7 +251,8 @@ def gen_net(rng, idx, profile):
             other = rng.choice([b.unary("RELU", cur), b.pool(cur, "MAX_POOL_2D", (3, 3), (1, 1), "SAME"), cur])
             axis = rng.choice([3, 3, 1, 2])
             new = b.concat([cur, other] if rng.random() < 0.5 else [other, cur, other], axis)
-            _same_quant(b, new, cur)
+            if rng.random() < 0.75:
+                _same_quant(b, new, cur)        # otherwise the inputs are requantised (approximated class)
         elif kind == "split_concat" and cc % 2 == 0:
             o1, o2 = b.split(cur, 2, 3)
             o1 = b.unary("RELU", o1)
@@ -260,7 +261,37 @@ def gen_net(rng, idx, profile):
         elif kind == "slice" and hh >= 2 and ww >= 2:
             b0, b1 = rng.randint(0, hh - 1), rng.randint(0, ww - 1)
             c0 = rng.choice([0, 0, cc // 2])
-            new = b.strided_slice(cur, [0, b0, b1, c0], [1, rng.randint(b0 + 1, hh), rng.randint(b1 + 1, ww), cc])
+            e0, e1 = rng.randint(b0 + 1, hh), rng.randint(b1 + 1, ww)
+            style = rng.choice(["plain"] * 5 + ["strided", "masks", "negative"])
+            if style == "plain":
+                new = b.strided_slice(cur, [0, b0, b1, c0], [1, e0, e1, cc])
+            else:
+                # variants the NPU does not take (strides) or that need the masks / negative indices resolved
+                b.net.desc[-1] += ":" + style
+                st = [1, 1, 1, 1]
+                bm = em = 0
+                bv, ev = [0, b0, b1, c0], [1, e0, e1, cc]
+                if style == "strided":
+                    st = [1, rng.choice([1, 2]), rng.choice([2, 3]), 1]
+                elif style == "masks":
+                    bm, em = rng.choice([2, 4, 6]), rng.choice([2, 4, 6, 8])
+                    for i_ in range(4):
+                        if (bm >> i_) & 1:
+                            bv[i_] = rng.randint(0, 5)
+                        if (em >> i_) & 1:
+                            ev[i_] = rng.randint(0, 5)
+                else:
+                    bv, ev = [0, b0 - hh, b1, c0], [1, e0, e1 - ww if e1 < ww else e1, cc]
+                rb = [0 if (bm >> i_) & 1 else bv[i_] % xt.shape[i_] if bv[i_] < 0 else bv[i_] for i_ in range(4)]
+                re_ = [xt.shape[i_] if (em >> i_) & 1 else (ev[i_] + xt.shape[i_] if ev[i_] < 0 else ev[i_]) for i_ in range(4)]
+                shape_o = [(y_ - x_ + s_ - 1) // s_ for x_, y_, s_ in zip(rb, re_, st)]
+                if all(d_ > 0 for d_ in shape_o):
+                    bt = b.const([4], "int32", bv, name=b.fresh("begin"))
+                    et = b.const([4], "int32", ev, name=b.fresh("end"))
+                    stt = b.const([4], "int32", st, name=b.fresh("strides"))
+                    new = b.fm(shape_o, xt.dtype, scale=xt.scales[0], zp=xt.zps[0])
+                    b.net.ops.append(netgen.Op("STRIDED_SLICE", [cur, bt, et, stt], [new], ("StridedSliceOptions", dict(
+                        BeginMask=bm, EndMask=em, EllipsisMask=0, NewAxisMask=0, ShrinkAxisMask=0))))
         elif kind == "pad":
             new = b.pad(cur, [[0, 0], [rng.randint(0, 2), rng.randint(0, 2)], [rng.randint(0, 2), rng.randint(0, 2)], [0, 0]])
         elif kind == "pad_conv":
@@ -279,6 +310,9 @@ def gen_net(rng, idx, profile):
             b.net.ops.append(netgen.Op("EXPAND_DIMS", [sq, axt], [new], ("ExpandDimsOptions", {})))
         elif kind == "tconv" and hh * ww <= 36 and xt.dtype != "int16":
             new = b.transpose_conv(cur, rng.choice([1, 4, 8]), rng.choice([(2, 2), (3, 3)]), (2, 2), rng.choice(["SAME", "VALID"]))
+        elif kind == "fc_batch" and 1 < hh * ww <= 16:
+            flat = b.reshape(cur, [hh * ww, cc])        # batch > 1 is accepted for FULLY_CONNECTED
+            new = b.fc(flat, rng.choice([1, 10, 16]), act=rng.choice([0, 1]))
         elif kind == "fc_end" and hh * ww * cc <= 512:
             flat = b.reshape(cur, [1, hh * ww * cc])
             new = b.fc(flat, rng.choice([1, 10, 16]), act=rng.choice([0, 1]))
@@ -329,7 +363,7 @@ def gen_net(rng, idx, profile):
             al, hp = rng.choice([(False, False), (True, False), (False, True)])
             if al and (hh == 1 or ww == 1 or (kind_r == "RESIZE_NEAREST_NEIGHBOR" and cc > 1)):
                 al = False          # crashes recorded under C13
-            new = b.resize(cur, 2, kind_r, al, hp)
+            new = b.resize(cur, 4 if hh * ww <= 9 and rng.random() < 0.3 else 2, kind_r, al, hp)
         else:
             new = b.unary("LOGISTIC" if which == "logistic" else "TANH", cur)
         if new is not None:
@@ -571,7 +605,7 @@ def replay(ck, path):
 
 def main():
     ck = Check("C01", "translation_validation")
-    ck.lean_stage(["VelaVerif.Props.C01"])
+    ck.lean_stage(["VelaVerif.Props.C01", "VelaVerif.Props.C01Wide"])
     if ck.replay_arg:
         replay(ck, ck.replay_arg)
     import pipeline
